@@ -80,12 +80,13 @@ def freshServer (a : Addr) (queryPort : Int) : Server :=
   { addr := a, queryPort, status := Status.new, info := zeroInfo, details := ⟨zeroInfo, [], []⟩, refreshedAt := none, version := 0 }
 
 /-- a report applied to a record: info replaced, refreshed now, `master|info` set and `new` cleared;
-when neither `port` nor `port_retry` was set a port probe is queued and `port_retry` set (one more write) -/
+when neither `port` nor `port_retry` was set a port probe is queued and `port_retry` set (a second write:
+the version advances once per write) -/
 def reportedServer (base : Server) (info : Fields) (now : Int) : Server × Bool :=
   let pending := Status.hasNone base.status (Status.port ||| Status.portRetry)
   let st1 := Status.update base.status (Status.master ||| Status.info)
   if pending then
-    ({ base with info := info, refreshedAt := some now, status := Status.update st1 Status.portRetry, version := base.version + 2 }, true)
+    ({ base with info := info, refreshedAt := some now, status := Status.update st1 Status.portRetry, version := base.version + 1 + 1 }, true)
   else
     ({ base with info := info, refreshedAt := some now, status := st1, version := base.version + 1 }, false)
 
